@@ -244,20 +244,50 @@ func cheapEnough(b bits6) bool {
 }
 
 type nextRes struct {
-	Obs, Ref   *int64
-	Nanos      int
-	Panicked   bool
-	Facts      transFacts
-	FactsFixed bool
+	Obs, Ref *int64
+	Nanos    int
+	Panicked bool
+	Hung     bool // Next did not return within hangDeadline (liveness observation)
+	Skipped  bool // not run: the hang budget of this run is used up and the input has the shape that hangs
+	Facts    transFacts
 }
 
-func observeNext(s *cron.SpecSchedule, arg time.Time) (r time.Time, panicked bool) {
-	defer func() {
-		if recover() != nil {
-			panicked = true
-		}
+// Next is run on its own goroutine with a deadline: the only real-time judgement of this
+// harness, and only for the liveness observation "Next returns". A call that returns needs
+// microseconds to milliseconds (Second/Minute/Hour sets are non-empty: at most a few
+// thousand loop iterations), so the deadline is about 10^4 times the worst case. A call that
+// hangs keeps its goroutine spinning until the process exits, hence the budget.
+const hangDeadline = 6 * time.Second
+
+var (
+	hangsSeen  int
+	hangBudget = 1
+)
+
+type nextOut struct {
+	r        time.Time
+	panicked bool
+}
+
+func observeNext(s *cron.SpecSchedule, arg time.Time) (r time.Time, panicked, hung bool) {
+	done := make(chan nextOut, 1)
+	go func() {
+		var o nextOut
+		defer func() {
+			if recover() != nil {
+				o.panicked = true
+			}
+			done <- o
+		}()
+		o.r = s.Next(arg)
 	}()
-	return s.Next(arg), false
+	select {
+	case o := <-done:
+		return o.r, o.panicked, false
+	case <-time.After(hangDeadline):
+		hangsSeen++
+		return time.Time{}, false, true
+	}
 }
 
 // evalNext runs Next and the reference; shared by the generator's screening and runNext.
@@ -271,19 +301,44 @@ func evalNext(sp *cron.SpecSchedule, b bits6, tab *zoneTab, t, nanos int64, mode
 		arg = arg.In(tab.Loc)
 	}
 	var res nextRes
-	out, panicked := observeNext(&sc, arg)
-	res.Panicked = panicked
-	if !panicked && !out.IsZero() {
+	res.Ref = refNext(b, tab, t)
+	// INPUT facts, first over the window the reference needs: [lo, reference + 1 day]
+	// (the whole search window when the reference finds nothing)
+	hiRef := t + marginAhead
+	if res.Ref != nil {
+		hiRef = *res.Ref + day
+	}
+	// lower end: one day before the instant; when the month of the upcoming second is not in
+	// the Month set the search restarts from the first midnight of that month, so one day
+	// before that (all of this is read off the input: schedule, table, instant)
+	lo := t - day
+	if off0, _, _ := tab.lookup(t + 1); true {
+		w := time.Unix(t+1+off0, 0).UTC()
+		if !has(b.Month, int(w.Month())) {
+			lo = min64(lo, time.Date(w.Year(), w.Month(), 1, 0, 0, 0, 0, time.UTC).Unix()-off0-day)
+		}
+	}
+	pre := tab.factsIn(lo, hiRef)
+	if pre.DaySkip && hangsSeen >= hangBudget {
+		res.Skipped, res.Facts = true, pre
+		return res
+	}
+	out, panicked, hung := observeNext(&sc, arg)
+	res.Panicked, res.Hung = panicked, hung
+	if !panicked && !hung && !out.IsZero() {
 		u := out.Unix()
 		res.Obs, res.Nanos = &u, out.Nanosecond()
 	}
-	res.Ref = refNext(b, tab, t)
-	// facts: shapes of the transitions in [t - 1 day, max(observed, reference) + 1 day]
-	hi := t + marginAhead
-	if res.Obs != nil && res.Ref != nil {
-		hi = max64(*res.Obs, *res.Ref) + day
+	// facts: shapes of the transitions in [lo, max(observed, reference) + 1 day]
+	// (a hung call: the window of the reference; nothing found by either: the search window)
+	hi := hiRef
+	if res.Obs != nil {
+		hi = *res.Obs + day
+		if res.Ref != nil {
+			hi = max64(*res.Obs, *res.Ref) + day
+		}
 	}
-	res.Facts = tab.factsIn(t-day, hi)
+	res.Facts = tab.factsIn(lo, hi)
 	return res
 }
 
@@ -330,11 +385,18 @@ func runNext(ctx *core.Ctx, in c04Input) error {
 	}
 	res := evalNext(sp, b, tab, t, in.Nanos, in.Mode)
 	f := res.Facts
+	if res.Skipped {
+		// the hang budget of this run is spent and this input has the shape that hangs
+		ctx.Sink.Count("next/not-run-day-skip-after-hang-budget")
+		return nil
+	}
 	c := hx.Case{Kind: "next", Input: hx.MustJSON(in),
 		Facts: map[string]any{
 			"kind_next":                true,
 			"zone_fixed":               tab.Fixed,
+			"dst_shape":                f.shape(),
 			"transition_in_window":     f.Any,
+			"near_day_skip":            f.DaySkip,
 			"near_non_hour_transition": f.NonHour,
 			"near_midnight_gap":        f.MidnightGap,
 			"near_midnight_overlap":    f.MidnightOverlap,
@@ -346,6 +408,12 @@ func runNext(ctx *core.Ctx, in c04Input) error {
 	c.Coq = fmt.Sprintf("check_next_case %d %d %d %d %d %d %s %s %s", b.Sec, b.Min, b.Hour, b.Dom, b.Month, b.Dow,
 		tab.coqFor(t), coqZ(t), coqOpt(res.Obs))
 	switch {
+	case res.Hung:
+		// neither the model nor the oracle is evaluated: the model would spin as well
+		c.Coq = ""
+		c.Direct, c.Note = 2, fmt.Sprintf("Next did not return within %v (the specification demands a result or the zero time)", hangDeadline)
+		c.Observed = map[string]any{"next": "no return", "go_reference": res.Ref}
+		ctx.Sink.Count("next/result=hang")
 	case res.Panicked:
 		c.Direct, c.Note = 2, "Next panicked"
 	case res.Nanos != 0:
@@ -381,6 +449,10 @@ func runNext(ctx *core.Ctx, in c04Input) error {
 	if f.OffHour {
 		ctx.Sink.Count("next/near-off-hour-transition")
 	}
+	if f.DaySkip {
+		ctx.Sink.Count("next/near-day-skip")
+	}
+	ctx.Sink.Count("next/dst_shape=" + f.shape())
 	if !optEq(res.Obs, res.Ref) {
 		ctx.Sink.Count("next/differs-from-go-reference")
 	}
